@@ -373,7 +373,7 @@ class P:
                 stmts.append(("expr", e)); continue
             if self.at("}"):
                 tail = e; break
-            if e[0] in ("if", "iflet", "match", "for", "while", "loop", "block"):
+            if e[0] in ("if", "iflet", "match", "for", "while", "loop", "block") or (e[0] == "macro" and len(e) > 3 and e[3] == "{"):
                 stmts.append(("expr", e)); continue
             self.fail("expected `;` or `}`")
         self.expect("}")
@@ -457,7 +457,7 @@ class P:
                 # macro call: keep raw tokens of the argument
                 self.i += 1; o = self.peek()[1]; c = {"(": ")", "[": "]", "{": "}"}[o]
                 start = self.i + 1; self.skip_balanced(o, c)
-                return ("macro", path, self.t[start:self.i - 1])
+                return ("macro", path, self.t[start:self.i - 1], o)
             if self.at("{") and not nostruct and (path[-1][0].isupper()):
                 self.i += 1; fs = []; base = None
                 while not self.at("}"):
@@ -1307,6 +1307,20 @@ class Emit:
             name = "::".join(e[1])
             if name in self.skip_macros: return []
             if name in ("anyhow::bail", "bail") and self.cur_result: return [ind + "throw (Rs.Err.config Rs.opaqueMsg)"]
+            if name == "tokio::select" and self.effects and "tokio_select" in self.externs:
+                # `tokio::select! { p0 = fut0 => body0, p1 = fut1 => body1, … }`: WHICH future completes first is an operation
+                # of the world (`tokio_select n` answers an arm index below n; the last arm also stands for any other answer)
+                sub = P(list(e[2]) + [("eof", "", 0)], "macro"); arms = []
+                while sub.peek()[0] != "eof":
+                    sub.pat(); sub.expect("="); sub.expr(nostruct=True); sub.expect("=>")
+                    body = sub.block() if sub.at("{") else ("block", [], sub.expr())
+                    sub.eat(","); arms.append(body)
+                self.cur_uses_ext = True
+                L = [ind + f"match (← ext.tokio_select {len(arms)}) with"]
+                for i, b in enumerate(arms):
+                    L.append(ind + (f"| {i} =>" if i + 1 < len(arms) else "| _ =>"))
+                    L += self.seq(b, ind + "    ", "unit")
+                return L
             raise Unsupported(f"macro statement {name}!")
         if k == "assign":
             op, lhs, rhs = e[1], e[2], e[3]
